@@ -22,10 +22,11 @@ import (
 // permutes it deliberately instead of hoping a repeated real load differs.
 
 type c06Set struct {
-	ID    string            `json:"id"`
-	Set   *modset.Set       `json:"set,omitempty"`
-	Main  string            `json:"main_name"`
-	Files map[string]string `json:"files"`
+	Features string            `json:"features,omitempty"` // parser.Options.Features of every load of this set ("off:x"); order oracles are then skipped, only load-to-load identity is demanded
+	ID       string            `json:"id"`
+	Set      *modset.Set       `json:"set,omitempty"`
+	Main     string            `json:"main_name"`
+	Files    map[string]string `json:"files"`
 }
 
 type c06Scenario struct {
@@ -34,7 +35,7 @@ type c06Scenario struct {
 }
 
 func c06Case(s *c06Set, id string, o load.OrderSpec, dump bool) *load.Case {
-	return &load.Case{ID: s.ID + "|" + id, MainName: s.Main, Files: s.Files, Order: o, WantOrder: true, WantDump: dump}
+	return &load.Case{ID: s.ID + "|" + id, MainName: s.Main, Files: s.Files, Order: o, WantOrder: true, WantDump: dump, Features: s.Features}
 }
 
 func firstDiff(a, b string) (string, string, string) {
@@ -120,6 +121,13 @@ func c06Eval(sets []*c06Set, nPerm int, perSite bool, r *kit.Rng, budget *kit.Bu
 		c := c06Case(s, "ref-again", load.OrderSpec{Mode: "sorted"}, false)
 		cases = append(cases, c)
 		owner[c.ID] = s
+		if _, ok := s.Files[s.Main]; ok {
+			// the same text handed over as a string instead of by name
+			c := c06Case(s, "ref-via-string", load.OrderSpec{Mode: "sorted"}, false)
+			c.ViaString = true
+			cases = append(cases, c)
+			owner[c.ID] = s
+		}
 		for i := 0; i < nPerm; i++ {
 			c := c06Case(s, fmt.Sprintf("perm%d", i), load.OrderSpec{Mode: "perm", Seed: r.Uint64()}, false)
 			cases = append(cases, c)
@@ -163,6 +171,11 @@ func c06Eval(sets []*c06Set, nPerm int, perSite bool, r *kit.Rng, budget *kit.Bu
 			sitesSeen[site] += n
 		}
 		if ref.Kind != "module" {
+			if s.Set != nil && s.Features != "" && ref.Kind == "error" {
+				// (a deviation or augment may name a node that the feature configuration removed)
+				stats.Inc("generated-set-not-loadable-under-its-feature-configuration")
+				continue
+			}
 			if s.Set != nil {
 				add(s, load.OrderSpec{Mode: "sorted"}, "generated-set-does-not-load:"+ref.Kind, fmt.Sprintf("a generated, well-formed module set did not load: %s %s %s", ref.Kind, ref.Err, ref.PanicAt), ref.LogHash)
 			} else {
@@ -174,7 +187,7 @@ func c06Eval(sets []*c06Set, nPerm int, perSite bool, r *kit.Rng, budget *kit.Bu
 		if ref.Dump2Hash != ref.DumpHash {
 			add(s, load.OrderSpec{Mode: "sorted"}, "second-load-differs-same-process", fmt.Sprintf("loading the same text twice in one process gave different schemas (dump hash %s then %s)", ref.DumpHash, ref.Dump2Hash), ref.LogHash)
 		}
-		if s.Set != nil {
+		if s.Set != nil && s.Features == "" {
 			for key, want := range s.Set.Expect {
 				if strings.HasPrefix(key, "~~") {
 					path := key[2:strings.Index(key, "#")]
@@ -275,6 +288,7 @@ func c06Eval(sets []*c06Set, nPerm int, perSite bool, r *kit.Rng, budget *kit.Bu
 			seenSet[k] = true
 			a := c06Case(m.s, "ref-dump", load.OrderSpec{Mode: "sorted"}, true)
 			b := c06Case(m.s, "bad-dump", m.c.Order, true)
+			b.ViaString = m.c.ViaString
 			again = append(again, a, b)
 			which = append(which, m)
 		}
@@ -295,6 +309,9 @@ func c06Eval(sets []*c06Set, nPerm int, perSite bool, r *kit.Rng, budget *kit.Bu
 			kind := "repeat-load-differs"
 			if m.c.Order.Mode == "sorted" {
 				kind = "repeat-load-differs-other-process"
+			}
+			if m.c.ViaString {
+				kind = "load-from-string-differs-from-load-by-name"
 			}
 			add(m.s, m.c.Order, kind+":"+acc, fmt.Sprintf("schema differs from the reference load under map order %+v; first difference at accessor %s: reference %q, this load %q", m.c.Order, acc, la, lb), m.o.LogHash)
 		}
@@ -328,7 +345,16 @@ func c06Batch(c *Check, tier string) int {
 	var sets []*c06Set
 	for i := 0; i < nGen; i++ {
 		ms := modset.Generate(r, r.Range(30, 90))
-		sets = append(sets, &c06Set{ID: fmt.Sprintf("gen%d", i), Set: ms, Main: ms.Main, Files: ms.Files})
+		cs := &c06Set{ID: fmt.Sprintf("gen%d", i), Set: ms, Main: ms.Main, Files: ms.Files}
+		if len(ms.Feats) > 0 && r.Chance(1, 3) {
+			// a non-default feature configuration: the last feature (the one refines are guarded by) off, or only the first on
+			if r.Chance(2, 3) {
+				cs.Features = "off:" + ms.Feats[len(ms.Feats)-1]
+			} else {
+				cs.Features = "on:" + ms.Feats[0]
+			}
+		}
+		sets = append(sets, cs)
 	}
 	files, byDir := loadCorpus()
 	for _, f := range files {
